@@ -206,6 +206,8 @@ func dataflowCase(c *Ctx, focus string) {
 				"pipestance failed on a program the model accepts: " + lastLines(r.outBuf.String(), 12), r.Steps})
 		}
 	case "mrp-panicked":
+	case "step-budget":
+		c.Res.Notes = append(c.Res.Notes, "step budget exhausted while the run was still progressing")
 	default:
 		c.Res.Violations = append(c.Res.Violations, Violation{"SIM", "run-" + r.Class(),
 			"run did not terminate: " + lastLines(r.outBuf.String(), 8), r.Steps})
